@@ -22,6 +22,7 @@ Print Assumptions C18_membership_independent_of_set_order.
 (* the order is total: two different IDs are never "equal" for the sort, so sorted() has exactly one result *)
 Theorem C18_scan_order_total : forall a b, cid_before a b = false -> cid_before b a = false -> a = b.
 Proof. exact before_total. Qed.
+Print Assumptions C18_scan_order_total.
 
 Example C18_example : scan_order [[1; 2]; []; [9]; [1; 1]; [7; 7; 7]] = scan_order [[9]; [7; 7; 7]; [1; 1]; []; [1; 2]] /\
                       scan_order [[1; 2]; []; [9]; [1; 1]; [7; 7; 7]] = [[7; 7; 7]; [1; 1]; [1; 2]; [9]].
